@@ -394,6 +394,11 @@ func runLinz(o Opts) *Result {
 			res.countN("events", len(evs))
 			hist := strings.Join(evs, " ")
 			r := d.Ask("lz check - " + hist)
+			if r == "inconclusive" {
+				// the bounded search gave up on this history (node budget): no verdict, counted, never an alarm
+				res.count("slot-histories-inconclusive")
+				continue
+			}
 			if strings.HasPrefix(r, "notlin") {
 				sig, extra := "not-linearizable", ""
 				if strings.Contains(r, "cleanup-deleted-live-entry") {
